@@ -199,6 +199,10 @@ cdef class KmerFinder:
                     continue
             elif stop == 0:  # stop == 0 means go to end of sequence.
                 stop = seq_length
+            elif stop > seq_length:
+                # Do not search past the end of a sequence that is shorter
+                # than the search window
+                stop = seq_length
             search_length = stop - start
             if search_length <= 0:
                 continue
